@@ -271,10 +271,27 @@ def check_c04(tier, seed):
         store, qs = realise(c, names3)
         if usable(qs):
             cases.append((store, qs))
+    if quick:
+        # three blocks over stores of at most two UTxOs, kept where one collateral block sits between two regular
+        # blocks in name order (alpha < collateral < mid < zeta): the bookkeeping of what is taken crosses both kinds
+        g3 = core.tlc_mc("MC_Selector", CFG.format(maxu=2, maxl=2, maxt1=1, maxt2=0, nblocks=3, wmax=50, explore="FALSE",
+                                                   fallback="FALSE", overlap="TRUE", emit="EmitCase"),
+                         "c04_gen3", workers=6, timeout=3000, heap="12g")
+        rep.add_tlc(g3)
+        between = []
+        for c in g3.cases:
+            coll = [i for i, q in enumerate(c["queries"]) if q["collateral"]]
+            if len(coll) == 1 and coll[0] in (0, 2):
+                store, qs = realise(c, names3)
+                if usable(qs):
+                    between.append((store, qs))
+        rng.shuffle(between)
+        rep.extra["three_block_cases_with_collateral_between"] = min(len(between), 15000)
+        cases += between[:15000]
     rep.exhaustive = True
-    if len(cases) > (60000 if quick else 300000):
+    if len(cases) > (75000 if quick else 300000):
         rng.shuffle(cases)
-        cases = cases[:(60000 if quick else 300000)]
+        cases = cases[:(75000 if quick else 300000)]
         rep.exhaustive = False
         rep.notes.append(f"enumerated cases sampled down to {len(cases)}")
     rep.extra["enumerated_cases"] = len(cases)
